@@ -327,3 +327,20 @@ Fixpoint cur_seq (c : config) (n : nat) : Z :=
 (* multiset inclusion of item ids *)
 Definition countZ (x : Z) (l : list Z) : nat := length (filter (Z.eqb x) l).
 Definition sub_ms (l1 l2 : list Z) : Prop := forall x, (countZ x l1 <= countZ x l2)%nat.
+
+(* ---- several requests through ONE retry sender ------------------------------------------------------
+   retrySender keeps no state between Send calls except its configuration and the stop channel, which
+   Shutdown closes once and for all requests, current and future.  A request enters Send at the
+   absolute instant rq_start; its run is the run of the loop above in its own time (relative to
+   rq_start), with a FRESH back-off state, its own elapsed budget and the shared stop instant. *)
+Record request := { rq_start : Z; rq_sc : scenario; rq_script : list attempt }.
+
+Definition request_scenario (c : config) (timeout : Z) (stop_abs : option Z) (r : request) : scenario :=
+  {| sc_cfg := c; sc_timeout := timeout; sc_sig := sc_sig (rq_sc r); sc_payload := sc_payload (rq_sc r);
+     sc_deadline := sc_deadline (rq_sc r); sc_cancel := sc_cancel (rq_sc r);
+     sc_stop := option_map (fun t => t - rq_start r) stop_abs;
+     sc_draws := sc_draws (rq_sc r); sc_tie := sc_tie (rq_sc r) |}.
+
+Definition sender_runs (c : config) (timeout : Z) (stop_abs : option Z) (rs : list request)
+  : list (list step * verdict) :=
+  map (fun r => run (request_scenario c timeout stop_abs r) (rq_script r)) rs.
